@@ -353,6 +353,15 @@ theorem run_inv {cfg : Cfg} : ∀ (ops : List Op) {vm r : VM}, Inv vm → run cf
         obtain ⟨hi2, hx2⟩ := run_inv ops hi1 h
         exact ⟨hi2, hx1.trans hx2⟩
 
+theorem run_append (cfg : Cfg) : ∀ (a b : List Op) (vm : VM),
+    run cfg vm (a ++ b) = (run cfg vm a).bind (run cfg · b)
+  | [], b, vm => by simp [run]
+  | op :: a, b, vm => by
+      simp only [List.cons_append, run]
+      cases h1 : exec cfg vm op with
+      | none => simp
+      | some vm1 => simp [run_append cfg a b vm1]
+
 theorem init_inv (stack store : List V) (ip : Nat) : Inv (init stack store ip) := by
   refine ⟨⟨rfl, ?_, ?_⟩, trivial, rfl⟩
   · intro m mk e h; simp [init] at h
